@@ -77,6 +77,21 @@ def printList : List Expr → List VExpr
   | e :: es => (printE e).1 :: printList es
 end
 
+/-- Where the printer's sign flag can still differ from the type Verilog gives the text: a shift reports
+    `s1 or s2`, Verilog takes the type of the shifted operand alone (`u <<< s` with a signed amount `s`).
+    `signFlagsOk e`: on every path along which signedness propagates to the root of `e` (not below comparisons,
+    `Cat`, `Replicate`, `Mux` conditions, shift amounts) no shift has a signed amount and an unsigned operand. -/
+def signFlagsOk : Expr → Bool
+  | .const _ _ _ => true
+  | .sig _ _ _ => true
+  | .op1 _ a => signFlagsOk a
+  | .op2 o a b =>
+    o.isCmp || (if o.isShift then signFlagsOk a && (!(printE b).2 || (printE a).2) else signFlagsOk a && signFlagsOk b)
+  | .mux _ a b => signFlagsOk a && signFlagsOk b
+  | .slice a _ _ => signFlagsOk a
+  | .cat _ => true
+  | .rep _ _ => true
+
 /-- The `(width, signed)` the Verilog text assigns an expression to when it is the right-hand side of an
     assignment to a `lw`-bit target, compared with what `Evaluator.assign` stores: bits of the stored value. -/
 def storeF (ρ : Env) (lw : Nat) (e : Expr) : Int := tn lw (evalF ρ e)
